@@ -105,8 +105,24 @@ func WriteFiles(dir string, files map[string]string) {
 	}
 }
 
+// TranspileWatchdog bounds one in-process Transpile call. Typical calls take
+// about a millisecond; a call that does not return within this (very generous,
+// load-tolerant) time is classified as a hang and its goroutine is abandoned.
+var TranspileWatchdog = 90 * time.Second
+
 // TranspilePath calls the repository's transpiler on an existing file.
-func TranspilePath(path string, target Target) (res TResult) {
+func TranspilePath(path string, target Target) TResult {
+	ch := make(chan TResult, 1)
+	go func() { ch <- transpilePath(path, target) }()
+	select {
+	case r := <-ch:
+		return r
+	case <-time.After(TranspileWatchdog):
+		return TResult{Panic: fmt.Sprintf("hang: Transpile did not return within %s", TranspileWatchdog)}
+	}
+}
+
+func transpilePath(path string, target Target) (res TResult) {
 	defer func() {
 		if r := recover(); r != nil {
 			buf := make([]byte, 4096)
